@@ -88,9 +88,13 @@ pub struct Inner {
     pub seq_mode: bool,
 }
 
+pub type ReachFn = Box<dyn Fn() -> std::collections::HashSet<usize> + Send + Sync>;
+
 pub struct Exec {
     pub m: Mutex<Inner>,
     pub cv: Condvar,
+    /// addresses reachable from the map's roots right now (inspector), for the retire check
+    pub reach: Mutex<Option<ReachFn>>,
 }
 
 thread_local! {
@@ -205,6 +209,7 @@ impl Exec {
                 seq_mode: false,
             }),
             cv: Condvar::new(),
+            reach: Mutex::new(None),
         })
     }
 
@@ -258,6 +263,21 @@ impl Exec {
     }
 
     pub fn on_hook(&self, tid: usize, kind: u32, args: &[usize]) {
+        // is the object being retired still reachable from the map's roots? (all other threads
+        // are parked at yield points, so the inspector's walk is consistent)
+        let mut reachable_now = 0u8;
+        if kind == fv::RETIRE {
+            let rec = self.m.lock().unwrap().rec_mem;
+            if rec {
+                let f = self.reach.lock().unwrap();
+                if let Some(f) = f.as_ref() {
+                    let set = suppressed(|| f());
+                    if set.contains(&args[0]) {
+                        reachable_now = 1;
+                    }
+                }
+            }
+        }
         let mut g = self.m.lock().unwrap();
         if g.aborted {
             // the run was abandoned (stuck): park this thread forever
@@ -284,7 +304,7 @@ impl Exec {
             fv::RETIRE => {
                 Self::check_freed(&mut g, tid, "retire", args[0]);
                 if g.rec_mem {
-                    g.trace.push(json!({"e": "retire", "t": tid, "o": args[0], "ty": type_tag(args), "wv": args[1]}));
+                    g.trace.push(json!({"e": "retire", "t": tid, "o": args[0], "ty": type_tag(args), "wv": args[1], "reach": reachable_now}));
                 }
             }
             _ => {}
